@@ -445,3 +445,141 @@ func (en *Engine) variadicElems(st *State, v Val) ([]Val, bool) {
 	}
 	return out, true
 }
+
+// trimRightLoop recognises
+//
+//	for len(p) > 0 && p[len(p)-1] == c { p = p[:len(p)-1] }
+//
+// (any order of the two tests, any spelling of "> 0") — the loop bytes.TrimRight(p, string(c)) runs for a one-byte
+// cutset. It returns the header phi, the single exit block and the value the phi has at the exit.
+func (en *Engine) trimRightLoop(st *State, fr *Frame, li *loopInfo, header, from *ssa.BasicBlock) (*ssa.Phi, *ssa.BasicBlock, Val, bool) {
+	var phi *ssa.Phi
+	for _, in := range header.Instrs {
+		p, ok := in.(*ssa.Phi)
+		if !ok {
+			break
+		}
+		if phi != nil {
+			return nil, nil, nil, false
+		}
+		phi = p
+	}
+	if phi == nil || typeStr(phi.Type()) != "[]byte" || len(li.blocks) > 4 {
+		return nil, nil, nil, false
+	}
+	isLenP := func(v ssa.Value) bool {
+		c, ok := v.(*ssa.Call)
+		if !ok || !isLenCall(c) || len(c.Common().Args) != 1 {
+			return false
+		}
+		b, _ := c.Common().Value.(*ssa.Builtin)
+		return b != nil && b.Name() == "len" && c.Common().Args[0] == ssa.Value(phi)
+	}
+	isLenMinus1 := func(v ssa.Value) bool {
+		b, ok := v.(*ssa.BinOp)
+		if !ok || b.Op != token.SUB || !isLenP(b.X) {
+			return false
+		}
+		c, ok := b.Y.(*ssa.Const)
+		return ok && isIntConst(c) && c.Int64() == 1
+	}
+	var exit *ssa.BasicBlock
+	var cut *ssa.Const
+	nSlice := 0
+	var sliceV ssa.Value
+	for b := range li.blocks {
+		for _, in := range b.Instrs {
+			switch x := in.(type) {
+			case *ssa.Phi, *ssa.DebugRef, *ssa.Jump:
+			case *ssa.Call:
+				if !isLenP(x) {
+					return nil, nil, nil, false
+				}
+			case *ssa.BinOp:
+				switch x.Op {
+				case token.SUB:
+					if !isLenMinus1(x) {
+						return nil, nil, nil, false
+					}
+				case token.EQL:
+					// p[len(p)-1] == c
+					ld, ok := x.X.(*ssa.UnOp)
+					c, ok2 := x.Y.(*ssa.Const)
+					if !ok || !ok2 || ld.Op != token.MUL || cut != nil {
+						return nil, nil, nil, false
+					}
+					ia, ok := ld.X.(*ssa.IndexAddr)
+					if !ok || ia.X != ssa.Value(phi) || !isLenMinus1(ia.Index) || !isIntConst(c) {
+						return nil, nil, nil, false
+					}
+					cut = c
+				case token.GTR, token.NEQ:
+					// len(p) > 0 / len(p) != 0
+					c, ok := x.Y.(*ssa.Const)
+					if !isLenP(x.X) || !ok || !isIntConst(c) || c.Int64() != 0 {
+						return nil, nil, nil, false
+					}
+				case token.GEQ:
+					c, ok := x.Y.(*ssa.Const)
+					if !isLenP(x.X) || !ok || !isIntConst(c) || c.Int64() != 1 {
+						return nil, nil, nil, false
+					}
+				default:
+					return nil, nil, nil, false
+				}
+			case *ssa.IndexAddr:
+				if x.X != ssa.Value(phi) || !isLenMinus1(x.Index) {
+					return nil, nil, nil, false
+				}
+			case *ssa.UnOp:
+				if x.Op != token.MUL {
+					return nil, nil, nil, false
+				}
+				if _, ok := x.X.(*ssa.IndexAddr); !ok {
+					return nil, nil, nil, false
+				}
+			case *ssa.Slice:
+				if x.X != ssa.Value(phi) || x.Low != nil || x.Max != nil || x.High == nil || !isLenMinus1(x.High) {
+					return nil, nil, nil, false
+				}
+				nSlice++
+				sliceV = x
+			case *ssa.If:
+				// the true branch stays in the loop, the false branch leaves it — always to the same block
+				t, f := b.Succs[0], b.Succs[1]
+				if !li.blocks[t] || li.blocks[f] || (exit != nil && exit != f) {
+					return nil, nil, nil, false
+				}
+				exit = f
+			default:
+				return nil, nil, nil, false
+			}
+		}
+	}
+	if exit == nil || cut == nil || nSlice != 1 {
+		return nil, nil, nil, false
+	}
+	// the phi is fed by the value before the loop and by the slice
+	idx := -1
+	for i, p := range header.Preds {
+		if p == from {
+			idx = i
+		}
+	}
+	if idx < 0 || len(phi.Edges) != 2 || phi.Edges[1-idx] != sliceV {
+		return nil, nil, nil, false
+	}
+	// the exit must be reachable from the header itself (so entering it "from the header" selects the right phi edges)
+	okExit := false
+	for _, p := range exit.Preds {
+		if p == header {
+			okExit = true
+		}
+	}
+	if !okExit {
+		return nil, nil, nil, false
+	}
+	init := en.eval(st, fr, phi.Edges[idx])
+	val := mkCall("bytes.TrimRight", nil, []Val{init, strV(string(rune(cut.Int64())))}, "", 0, 1, phi.Type())
+	return phi, exit, val, true
+}
